@@ -206,7 +206,7 @@ fn recover_image<K: HKey>(img: &Path, cfg: &Cfg, nested: bool, cont: &[Value], s
     if nested {
         shim::uninstall();
     }
-    let obs = st.observe();
+    let obs = st.observe_opt(true);
     let mut contv = vec![];
     for (i, op) in cont.iter().enumerate() {
         let r = st.exec(op, i);
@@ -377,7 +377,7 @@ fn run_fault<K: HKey>(sid: &Value, cfg: &Cfg, ops: &[Value], sel0: usize, scratc
                 (Some((k, kind, pc)), true) => json!({"hit": true, "k": k, "call": kind, "path": pc}),
                 _ => json!({"hit": false, "k": 0, "call": "", "path": ""}),
             };
-            lines.push(json!({"ev": "op", "i": i, "op": op, "res": r, "obs": st.observe(), "fault": fv}));
+            lines.push(json!({"ev": "op", "i": i, "op": op, "res": r, "obs": st.observe_opt(true), "fault": fv}));
             if i == 0 && st.cas.is_none() {
                 // the initial open failed: reopen without fault so that the rest can be judged
                 let r2 = st.exec(&json!({"op": "open"}), 0);
